@@ -86,11 +86,11 @@ fn pc_range(mn: &str) -> Option<(i64, i64, i64, bool)>
 	}
 }
 
-/// the base a PC-relative operand is measured from: the statement's address plus 4 (32-bit address arithmetic),
-/// word-aligned first for ADR and literal LDR
+/// the base a PC-relative operand is measured from: the statement's address plus 4 (unbounded arithmetic: at
+/// 0xFFFFFFFC the base is 2^32), word-aligned first for ADR and literal LDR
 fn pc_base(addr: u32, aligned: bool) -> i64
 {
-	(if aligned {(addr & !3).wrapping_add(4)} else {addr.wrapping_add(4)}) as i64
+	(if aligned {addr & !3} else {addr}) as i64 + 4
 }
 
 /// THE ORACLE: the instruction that mnemonic + operand values mean at `addr`; `None` = the statement is not
@@ -371,7 +371,8 @@ fn pick_addr(rng: &mut Rng) -> u32
 	match rng.below(10)
 	{
 		0..=7 => *rng.pick(&ADDRS_LOW) + *rng.pick(&[0u32, 2, 0, 2, 1, 3]) + if rng.chance(1, 4) {0x100 * rng.below(64) as u32} else {0},
-		_ => 0xFFFF_FFF0 + rng.below(16) as u32,
+		8 => 0xFFFF_FFF0 + rng.below(16) as u32,
+		_ => *rng.pick(&[0xFFFF_FFFCu32, 0xFFFF_FFFE, 0xFFFF_FFFA, 0xFFFF_FFF8]),   // addr + 4 reaches / passes 2^32
 	}
 }
 
@@ -518,7 +519,7 @@ fn gen_case(rng: &mut Rng) -> Case
 	let stmt = if texts.is_empty() {format!("{name};")} else {format!("{name} {};", texts.join(if rng.chance(1, 8) {","} else {", "}))};
 	let addr_text = if rng.chance(1, 2) {format!("0x{addr:X}")} else {format!("{addr}")};
 	let text = format!(".addr {addr_text}; {}{stmt} {}", d.before, d.after).trim_end().to_owned();
-	hist.push(match addr {a if a >= 0xFFFF_FFF0 => "addr: near wrap", a if a & 3 == 0 => "addr: 0 mod 4", a if a & 3 == 2 => "addr: 2 mod 4", _ => "addr: odd"});
+	hist.push(match addr {a if a >= 0xFFFF_FFFC => "addr: 0xFFFFFFFC..F (addr + 4 >= 2^32)", a if a >= 0xFFFF_FFF0 => "addr: near wrap", a if a & 3 == 0 => "addr: 0 mod 4", a if a & 3 == 2 => "addr: 2 mod 4", _ => "addr: odd"});
 	Case{text, expect, hist}
 }
 
@@ -614,7 +615,7 @@ pub fn run(cx: &mut Cx)
 	cx.report.rule = "one instruction statement per program after `.addr A;`: every mnemonic x spelling (case, register aliases) x operand shape \
 (right / one too many / one too few / wrong kind / no such register / unknown mnemonic) x immediates as constant expressions (literal, hex, \
 parenthesised, sum, product, shift, .const before, .const after = deferred, .global declared and defined later / never) x [base + off] in both orders \
-and [base] x addresses {0,1,2,3 mod 4} x {0, 0x10000000, 0x20000000, 0xFFFFFFF0..0xFFFFFFFF} x targets at/inside/beyond every range boundary and \
+and [base] x addresses {0,1,2,3 mod 4} x {0, 0x10000000, 0x20000000, 0xFFFFFFF0..0xFFFFFFFF incl. 0xFFFFFFFC/E where addr+4 passes 2^32} x targets at/inside/beyond every range boundary and \
 misaligned. Real Context pipeline as bin/assembler.rs. Oracle: expected Instruction computed from the written operands; bytes must be its \
 encoding and decode back; invalid statements must give a diagnostic and no encoding. Model: Front.build/assemble with the REAL evaluate as eval, \
 plus real encode, compared on diagnostics (full text) and output bytes. non-trivial = statement assembled to bytes without diagnostics".to_owned();
@@ -632,7 +633,7 @@ plus real encode, compared on diagnostics (full text) and output bytes. non-triv
 	// fixed table first: the register / mnemonic name tables of the model against the real `is_register`
 	names_audit(cx);
 
-	let total = if cx.thorough() {3_000_000} else {200_000};
+	let total = if cx.thorough() {5_000_000} else {200_000};
 	let mut done = 0;
 	while done < total
 	{
